@@ -59,7 +59,7 @@ AMTS = [U // 100, U // 20, U // 10, U // 4, U // 2, U, 2 * U, 3 * U, 5 * U, 1234
 PRICES = [U // 100, U, 10 * U, 20 * U, 50 * U, 123 * U + 45 * 10 ** 9, 1000 * U, 30000 * U]
 
 
-def gen_dca(rng, name, off, n_buys=None, subsecond=False):
+def gen_dca(rng, name, off, n_buys=None, subsecond=False, twins=False):
     """dollar-cost averaging: many small buys on one account, then one disposal that consumes most of them (many lot
     fractions for one taxable event) and a second small one.  subsecond: the buys fall into the same second (distinct
     microseconds), the first disposal follows within seconds."""
@@ -82,6 +82,10 @@ def gen_dca(rng, name, off, n_buys=None, subsecond=False):
         amt = rng.choice([U // 10, U // 20, U // 4])
         ins.append({"ts": [t, off], "exch": 0, "holder": 0, "type": "BUY", "spot": rng.choice(PRICES), "crypto_in": amt})
         total += amt
+    if twins and len(ins) >= 9:
+        # two purchases at the very same instant on sheet rows 9 and 10 (the IN table's data starts at row 3): their row
+        # numbers compare differently as strings and as integers
+        ins[7]["ts"] = list(ins[6]["ts"])
     if subsecond:
         ins.sort(key=lambda r: r["ts"][0])
         t = t0 + 1_000_000
@@ -119,6 +123,8 @@ def gen_asset(rng, name, ne, nh, shape, off, out_types=None, n_max=9, y0=None):
     """one asset's history: pairwise distinct instants, per-account balances never negative"""
     if shape == "dca":
         return gen_dca(rng, name, off)
+    if shape == "twins":
+        return gen_dca(rng, name, off, n_buys=rng.range(10, 14), twins=True)
     if shape == "subsecond":
         return gen_dca(rng, name, off, n_buys=rng.range(3, 5), subsecond=True)
     if shape == "lots":
@@ -212,7 +218,7 @@ def gen_input(rng, shape=None, n_assets=None, out_types=None):
         n_assets = max(2, n_assets)
     for k in range(n_assets):
         sh = shape
-        if shape in ("income_only", "fully_sold", "dca", "subsecond") and k > 0 and rng.chance(50):
+        if shape in ("income_only", "fully_sold", "dca", "subsecond", "twins") and k > 0 and rng.chance(50):
             sh = "plain"
         if shape == "staggered":
             # every asset starts in a later year than the previous one
